@@ -184,6 +184,29 @@ func runC03(c *Ctx) {
 	}
 	c.obF("R03.3", tf, "has-fallback", nNil >= 1, "typeForSchema has an unknown-type fallback", "")
 
+	// the element type of an array is computed from the ITEMS' declaration
+	nRec := 0
+	for _, ci := range callsIn(tf, "(*rt/middleware.untypedParamBinder).typeForSchema") {
+		nRec++
+		_, a := callArgs(ci.Common())
+		isItems := vOrigins(oIsValue(items))
+		okAll := true
+		for k, fld := range []string{"Type", "Format", "Items"} {
+			b, ok := fieldLoad(a[k], simpleT, fld)
+			if !ok {
+				okAll = false
+				break
+			}
+			r, _, _, _ := chainRoot(b)
+			if !isItems(r) {
+				okAll = false
+			}
+		}
+		okT, okBase, okI := okAll, okAll, okAll
+		c.obI("R03.3", ci, "item-type-from-items", okT && okBase && okI, "the element type of an array parameter is computed from the items' own type, FORMAT and nested items (int8/int16/int32 items keep their width, so out-of-width literals are refused)", "the recursive call is not fed items.Type, items.Format, items.Items")
+	}
+	c.obF("R03.3", tf, "recurses-into-items", nRec == 1, "typeForSchema recurses into array items", "")
+
 	// R03.4 reflect typestate on default-derived values
 	ruleR03_4(c)
 
